@@ -35,6 +35,32 @@ pub struct Call {
     pub sfile: String,
 }
 
+/// A path of a history as the operating system sees it. Histories are written as UTF-8 text; the markers `%FF` and
+/// `%FE` inside a file name stand for the single bytes 0xFF / 0xFE, which are not valid UTF-8: two file names that
+/// differ only in such a byte are different files, and different cache keys.
+pub fn os(p: &str) -> PathBuf {
+    #[cfg(unix)]
+    {
+        use std::os::unix::ffi::OsStringExt;
+        if p.contains("%FF") || p.contains("%FE") {
+            let mut bytes = Vec::with_capacity(p.len());
+            let b = p.as_bytes();
+            let mut i = 0;
+            while i < b.len() {
+                if b[i] == b'%' && i + 2 < b.len() + 0 && (&b[i + 1..i + 3] == b"FF" || &b[i + 1..i + 3] == b"FE") {
+                    bytes.push(if &b[i + 1..i + 3] == b"FF" { 0xFF } else { 0xFE });
+                    i += 3;
+                } else {
+                    bytes.push(b[i]);
+                    i += 1;
+                }
+            }
+            return PathBuf::from(std::ffi::OsString::from_vec(bytes));
+        }
+    }
+    PathBuf::from(p)
+}
+
 impl Call {
     pub fn spec(&self) -> Value {
         json!({"entry": if self.entry == Entry::File { "file" } else { "string" }, "query": self.query, "schema": self.schema, "opts": self.opts})
@@ -106,8 +132,8 @@ impl Obs {
 pub fn run_call(c: &Call) -> Obs {
     let opts = option_sets()[c.opts % option_sets().len()].to_real();
     let r = catch_unwind(AssertUnwindSafe(|| match c.entry {
-        Entry::File => graphql_client_codegen::generate_module_token_stream(PathBuf::from(&c.query), Path::new(&c.schema), opts),
-        Entry::Str => graphql_client_codegen::generate_module_token_stream_from_string(&c.query, Path::new(&c.schema), opts),
+        Entry::File => graphql_client_codegen::generate_module_token_stream(os(&c.query), os(&c.schema).as_path(), opts),
+        Entry::Str => graphql_client_codegen::generate_module_token_stream_from_string(&c.query, os(&c.schema).as_path(), opts),
     }));
     let (kind, text) = match r {
         Ok(Ok(ts)) => ("ok", ts.to_string()),
